@@ -16,6 +16,7 @@ import (
 
 	"verif/sim/fstree"
 	"verif/sim/kernel"
+	"verif/sim/model"
 )
 
 // C18: sessions terminate and do not interfere under any interleaving.
@@ -150,6 +151,20 @@ func (c18) Generate(seed uint64, tier string, index int) any {
 	sc := genSync(g, arr, []string{"-rt"}, to, false)
 	sc.ModuleFS = false
 	sc.Sources = []SrcArg{{Path: "", Slash: true}}
+	// the prior destination must belong to THIS source selection: genSync drew
+	// it for the source arguments it had chosen itself, and entries placed for
+	// another selection become accidental obstacles (a non-empty directory
+	// where a file must go), i.e. sessions that fail - those are the business
+	// of the literal-flip mode and of the recorded error-path finding
+	{
+		var ls []listedSrc
+		for _, l := range model.Select(fstree.SpecSnap(&sc.Src, false), modelArgs(sc.Sources), "src", arr == "A1", model.ParseOpts(sc.Opts)) {
+			if e := sc.Src.Find(l.SrcPath); e != nil {
+				ls = append(ls, listedSrc{Name: l.Name, Entry: *e})
+			}
+		}
+		sc.Dst = g.PriorDest(ls, false, g.R.Intn(3))
+	}
 	// emphasise the capacity matrix
 	pick := func(min int) int {
 		for {
@@ -261,7 +276,28 @@ func (c18) Run(t *testing.T, scenario any, job *Job, res *Result) {
 		res.Probe(fmt.Sprintf("cap_%d_%d", sc.Sync.Tr.CapCS, sc.Sync.Tr.CapSC), 1)
 		switch s.Outcome {
 		case kernel.Deadlock:
-			res.Violate("deadlock", "deadlock:"+sc.Sync.Arr, "no transport operation enabled and the session has not finished: "+s.Pending+
+			// Is this a session that would succeed, or one that fails anyway (an
+			// entry in the way that cannot be removed, ...) and merely does not
+			// get its error out? The same scenario on the canonical transport
+			// (unbounded buffers, whole-message deliveries) tells: the second
+			// kind is the recorded error-path hang, not a deadlock of valid
+			// sessions. Both are violations; they are different defects.
+			sig := "deadlock:" + sc.Sync.Arr
+			note := ""
+			if sc.Sync.Arr != "A4" {
+				canon := *sc.Sync
+				canon.Faults = nil
+				canon.Tr = Transport{CapCS: kernel.Unbounded, CapSC: kernel.Unbounded, Chunk: kernel.ChunkMax, Bias: kernel.BiasCanonical, SchedSeed: sc.Sync.Tr.SchedSeed, Seed: sc.Sync.Tr.Seed, ReadWindow: sc.Sync.Tr.ReadWindow, MinBlock: sc.Sync.Tr.MinBlock}
+				if err := prepare(&canon, lay); err == nil {
+					c := RunSyncSession(t, &canon, lay, SessionHooks{})
+					res.AddSession(c)
+					if c.Harness == "" && c.Outcome == kernel.Finished && (c.ClientErr != nil || c.ServerErr != nil) {
+						sig = "error-path-hang:" + sc.Sync.Arr
+						note = fmt.Sprintf("\n(on the canonical transport the same session ends with an error: client %v, server %v - the hang is on the error path)", c.ClientErr, c.ServerErr)
+					}
+				}
+			}
+			res.Violate("deadlock", sig, "no transport operation enabled and the session has not finished: "+s.Pending+note+
 				"\nclient stderr: "+tail(s.ClientStderr, 1200)+"\nserver stderr: "+tail(s.ServerStderr, 1200)+"\n"+s.Panic)
 			setTape(&sc.Sync.Tr, s)
 		case kernel.StepBudget:
